@@ -291,6 +291,14 @@ func (s *Sim) cleanRestart() {
 	s.call(CBarrier, Op{K: "Close"})
 	s.alive = false
 	s.killJobs()
+	if h := s.plan.HideAtRestart; h != "" && !s.hidden {
+		// the converter's file is not executable when the service starts: it is
+		// not loaded (and whatever the service does meanwhile does not know it)
+		// until a later change event makes it known
+		os.Chmod(filepath.Join(s.dirs.Converter, h), 0o644)
+		s.hidden = true
+		s.res.Count("fault_converter_not_executable_at_start", 1)
+	}
 	if r := s.call(CBarrier, Op{K: "New"}); r.Err != "" {
 		s.or.violate("restart", "restart-failed", "manager.New after clean Close: "+r.Err)
 		return
